@@ -59,6 +59,10 @@ func (r vc29Req) String() string {
 		return fmt.Sprintf("clearT(t r%d %s)", r.Row, col)
 	case "setG":
 		return fmt.Sprintf("setG(g r%d %s burst=%v)", r.Row, col, r.Burst)
+	case "setM", "clearM", "setB":
+		return fmt.Sprintf("%s(r%d %s)", r.Kind, r.Row, col)
+	case "rowM", "rowB":
+		return fmt.Sprintf("%s(r%d)", r.Kind, r.Row)
 	case "setTNew":
 		return fmt.Sprintf("setTNew(t r%d %s ts=%d-01-01 burst=%v)", r.Row, col, 2030+r.TS, r.Burst)
 	case "row", "rowT", "rowG", "clearRow", "count":
@@ -108,6 +112,9 @@ func vc29SetStep(state, input, output interface{}) (bool, interface{}) {
 	case "setBit":
 		b := vc29b(op.Row, op.Col)
 		return out.Unchecked || out.Changed == (s&b == 0), s | b
+	case "setMutex": // mutex/bool field: the column moves to the row
+		b := vc29b(op.Row, op.Col)
+		return out.Unchecked || out.Changed == (s&b == 0), (s &^ (vc29b(0, op.Col) | vc29b(1, op.Col))) | b
 	case "clearBit":
 		b := vc29b(op.Row, op.Col)
 		return out.Unchecked || out.Changed == (s&b != 0), s &^ b
@@ -280,6 +287,34 @@ func vc29Do(n *vgcNode, index string, r vc29Req) ([]vc29Sub, []vc29SubOut, error
 			return nil, nil, err
 		}
 		return perShardRow('t', res, r.Row, 2)
+	case "setM", "clearM":
+		name, kind := "Set", "setMutex"
+		if r.Kind == "clearM" {
+			name, kind = "Clear", "clearBit"
+		}
+		res, err := q(fmt.Sprintf("%s(%d, m=%d)", name, col, r.Row))
+		if err != nil {
+			return nil, nil, err
+		}
+		return one(vc29Sub{Obj: fmt.Sprintf("m%d", r.Shard), Kind: kind, Row: r.Row, Col: r.Col}, vc29SubOut{Changed: res.(bool)})
+	case "setB":
+		res, err := q(fmt.Sprintf("Set(%d, b=%v)", col, r.Row == 1))
+		if err != nil {
+			return nil, nil, err
+		}
+		return one(vc29Sub{Obj: fmt.Sprintf("b%d", r.Shard), Kind: "setMutex", Row: r.Row, Col: r.Col}, vc29SubOut{Changed: res.(bool)})
+	case "rowM":
+		res, err := q(fmt.Sprintf("Row(m=%d)", r.Row))
+		if err != nil {
+			return nil, nil, err
+		}
+		return perShardRow('m', res, r.Row, 2)
+	case "rowB":
+		res, err := q(fmt.Sprintf("Row(b=%v)", r.Row == 1))
+		if err != nil {
+			return nil, nil, err
+		}
+		return perShardRow('b', res, r.Row, 2)
 	case "setG":
 		// field g has no fragment until the clients create them
 		res, err := q(fmt.Sprintf("Set(%d, g=%d)", col, r.Row))
@@ -424,6 +459,7 @@ var vc29ReqKinds = []string{
 	"setV", "setV", "valueV", "eqV",
 	"count", "topn", "sum", "recalc",
 	"setG", "rowG",
+	"setM", "setM", "setM", "clearM", "rowM", "setB", "setB", "setB", "rowB",
 }
 
 func vc29GenReq(t *rapid.T) vc29Req {
@@ -548,6 +584,7 @@ func TestVerifC29_API(t *testing.T) {
 			name string
 			opt  FieldOption
 		}{{"f", OptFieldTypeSet(CacheTypeRanked, 100)}, {"c", OptFieldTypeSet(CacheTypeRanked, 100)}, {"g", OptFieldTypeSet(CacheTypeRanked, 100)},
+			{"m", OptFieldTypeMutex(CacheTypeRanked, 100)}, {"b", OptFieldTypeBool()},
 			{"t", OptFieldTypeTime(TimeQuantum("YMD"))}, {"v", OptFieldTypeInt(-1000, 1000)}} {
 			if _, err := node.API.CreateField(ctx, index, f.name, f.opt); err != nil {
 				t.Fatalf("create field %s: %v", f.name, err)
@@ -560,7 +597,7 @@ func TestVerifC29_API(t *testing.T) {
 		for sh := uint64(0); sh < 2; sh++ {
 			c0, c1 := vc29AbsCol(sh, 0), vc29AbsCol(sh, 1)
 			fmt.Fprintf(&setup, "Set(%d, c=1) Set(%d, c=2) Set(%d, c=2) ", c0, c0, c1)
-			fmt.Fprintf(&setup, "Set(%d, f=0) Clear(%d, f=0) Set(%d, t=0) Clear(%d, t=0) Set(%d, v=1) ", c0, c0, c0, c0, c0)
+			fmt.Fprintf(&setup, "Set(%d, f=0) Clear(%d, f=0) Set(%d, t=0) Clear(%d, t=0) Set(%d, v=1) Set(%d, m=0) Clear(%d, m=0) Set(%d, b=false) Clear(%d, b=false) ", c0, c0, c0, c0, c0, c0, c0, c0, c0)
 		}
 		if vkit.Open("D28") {
 			// open finding D28: growing the int field's bit depth races with every
@@ -634,7 +671,7 @@ func TestVerifC29_API(t *testing.T) {
 			all = append(all, rs...)
 		}
 		// final reads after every client returned
-		for _, r := range []vc29Req{{Kind: "row", Row: 0}, {Kind: "row", Row: 1}, {Kind: "rowT", Row: 0}, {Kind: "rowT", Row: 1}, {Kind: "rowG", Row: 0}, {Kind: "rowG", Row: 1},
+		for _, r := range []vc29Req{{Kind: "row", Row: 0}, {Kind: "row", Row: 1}, {Kind: "rowT", Row: 0}, {Kind: "rowT", Row: 1}, {Kind: "rowG", Row: 0}, {Kind: "rowG", Row: 1}, {Kind: "rowM", Row: 0}, {Kind: "rowM", Row: 1}, {Kind: "rowB", Row: 0}, {Kind: "rowB", Row: 1},
 			{Kind: "valueV", Shard: 0, Col: 0}, {Kind: "valueV", Shard: 0, Col: 1}, {Kind: "valueV", Shard: 1, Col: 0}, {Kind: "valueV", Shard: 1, Col: 1}} {
 			call := atomic.AddInt64(&clock, 1)
 			subs, outs, err := vc29Do(node, index, r)
@@ -644,8 +681,25 @@ func TestVerifC29_API(t *testing.T) {
 			}
 			all = append(all, vc29ApiRec{Client: nClients, Req: r, Subs: subs, Outs: outs, Call: call, Return: ret})
 		}
+		// no column of a mutex/bool field may end up with two rows
+		finalMask := map[string][2]uint8{} // object -> mask of row 0, row 1
+		for _, r := range all {
+			if r.Client != nClients || (r.Req.Kind != "rowM" && r.Req.Kind != "rowB") {
+				continue
+			}
+			for i, sub := range r.Subs {
+				m := finalMask[sub.Obj]
+				m[r.Req.Row] = r.Outs[i].Mask
+				finalMask[sub.Obj] = m
+			}
+		}
+		for obj, m := range finalMask {
+			if m[0]&m[1] != 0 {
+				t.Fatalf("C29 violated: object %s (mutex/bool field %c, shard %c) ends with a column that holds two rows: row 0 = %02b, row 1 = %02b (GOMAXPROCS=%d)\n%s", obj, obj[0], obj[1], m[0], m[1], procs, vc29FormatApiHistory(all, obj))
+			}
+		}
 		overlap := false
-		objs := []string{"f0", "f1", "t0", "t1", "v0", "v1"}
+		objs := []string{"f0", "f1", "t0", "t1", "v0", "v1", "m0", "m1", "b0", "b1"}
 		for sh := 0; sh < vc29MaxShards; sh++ {
 			objs = append(objs, fmt.Sprintf("g%d", sh))
 		}
